@@ -636,7 +636,6 @@ def run_tie(ctx, sessions, stats, max_report=3, max_model=None):
                 hist[nm] = hist.get(nm, 0) + 1
                 if op[3] == 1:
                     stats["stops"] = stats.get("stops", 0) + 1
-        stats["challenge_before_ack_packets"] = stats.get("challenge_before_ack_packets", 0) + challenge_before_ack(s)
         bad = oracle(s)
         if bad:
             stats["oracle_failures"] = stats.get("oracle_failures", 0) + 1
@@ -692,13 +691,13 @@ def first_bad_op(sess, tok_index):
     return "end"
 
 
-# ------------------------------------------------------------------------------------------- candidate finding F14 (C08's clause)
+# ------------------------------------------------------------------------------------------- former finding C08-F14 (fixed by 7b299f1)
 def f14_scenario(mk_pair, caddr, caddr2, saddr, n_bytes, pings=0):
     """Public API only.  Handshake; the server fills its congestion window with n_bytes of stream data that are lost; the
     client (optionally after `pings` PINGs of which every other one is lost, to give the server several ACK ranges) sends 600
     bytes of stream data from a NEW address; 30 ms later (delayed ACK due) the server calls datagrams_to_send():
-    _write_application writes PATH_CHALLENGE (checked against the flight space) and then ACK (not checked) into one packet,
-    which is in flight.  Returns the ledger before / after (private attributes are only read)."""
+    before fix 7b299f1 _write_application wrote PATH_CHALLENGE (checked against the flight space) and then ACK (not checked)
+    into one packet, which was in flight and exceeded the window; now the ACK comes first.  Returns the ledger before / after (private attributes are only read)."""
     client, server, _, _ = mk_pair({"mds_c": 1200, "mds_s": 1200, "chain": 1, "cc": "reno"})
     now = 1.0
     client.connect(saddr, now=now)
@@ -732,24 +731,29 @@ def f14_scenario(mk_pair, caddr, caddr2, saddr, n_bytes, pings=0):
 
 
 def f14_search(mk_pair, caddr, caddr2, saddr, pings=0, lo=13800, hi=14400):
-    """smallest-overshoot witness: the stream size that leaves 36..(36 + ACK size - 1) bytes of window"""
-    # the window left after the fill falls by one per stream byte: bisect for a remaining window of 36
+    """The former finding C08-F14 (fixed by 7b299f1: ACK is written before PATH_CHALLENGE).  Bisects the stream size for a
+    remaining window of 36 bytes (room for exactly a PATH_CHALLENGE packet) and scans the sizes around it.  Returns
+    {"overshoot": first scenario whose datagrams_to_send added more in-flight bytes than the window allowed, or None,
+     "probes": number of scenarios run, "at_36": the scenario with 36 bytes of window (what the fixed tree does there)}."""
     a, b = lo, hi
-    best = None
+    probes, at36, over = 0, None, None
     for _ in range(14):
+        if a >= b:
+            break
         m = (a + b) // 2
         r = f14_scenario(mk_pair, caddr, caddr2, saddr, m, pings)
-        if r["added_in_flight"] > r["allowed"] and not r["probe_pending"]:
-            best = r
+        probes += 1
+        if r["added_in_flight"] > r["allowed"] and not r["probe_pending"] and over is None:
+            over = r
         if r["allowed"] >= 36:
             a = m + 1
         else:
             b = m
-        if a >= b:
-            break
-    if best is None:
-        for m in range(max(lo, a - 8), a + 2):
-            r = f14_scenario(mk_pair, caddr, caddr2, saddr, m, pings)
-            if r["added_in_flight"] > r["allowed"] and not r["probe_pending"]:
-                return r
-    return best
+    for m in range(max(lo, a - 10), a + 2):
+        r = f14_scenario(mk_pair, caddr, caddr2, saddr, m, pings)
+        probes += 1
+        if r["allowed"] == 36:
+            at36 = r
+        if r["added_in_flight"] > r["allowed"] and not r["probe_pending"] and over is None:
+            over = r
+    return {"overshoot": over, "probes": probes, "at_36": at36}
